@@ -67,6 +67,9 @@ def rule_a1(F):
         r.inst(path, {"repr": a["repr"], "variants": vs, "fields_per_variant": nf, "roto_order": orders.get(rname)})
         if not any("I8" in x and "false" in x for x in a["repr"]):
             r.bad(path, "repr", relfile(a["file"]), a["line"], "%s must be #[repr(u8)] (found %s): generated code reads and writes a one-byte tag at offset 0" % (path, a["repr"]))
+        elif len(a["repr"]) != 1:
+            r.bad(path, "repr", relfile(a["file"]), a["line"],
+                  "%s must be exactly #[repr(u8)] (found %s): with an additional `C` (or packed/align) Rust places every payload at the alignment of the most-aligned variant, generated code places each payload at 1 rounded up to its own alignment" % (path, a["repr"]))
         if vs != want:
             r.bad(path, "variant order", relfile(a["file"]), a["line"], "variants are %s; scripts number them %s" % (vs, want))
         if orders.get(rname) is not None and orders.get(rname) != vs:
